@@ -1,7 +1,14 @@
 package props
 
 import (
+	"bufio"
+	"bytes"
+	"fmt"
+	"io"
+	"net/http"
 	"testing"
+
+	"github.com/go-netty/go-netty/codec/xhttp"
 
 	"pgregory.net/rapid"
 
@@ -10,7 +17,127 @@ import (
 
 // C06 — graceful close delivers every payload accepted before Close.
 
+// C06HTTP: one request served by the real xhttp codec + handler adapter; the response is written through
+// Channel.Writer() and the codec then closes the channel (request asked to close, or close-delimited response).
+type C06HTTP struct {
+	ReqClose bool   `json:"req_close"`
+	Mode     string `json:"mode"` // cl | none
+	Writes   []int  `json:"writes"`
+	Flush    bool   `json:"flush"`
+}
+
+func genC06HTTP(t *rapid.T) E1Case {
+	var c E1Case
+	// blocking mode: on a non-blocking queue a response chunk may legitimately be rejected (queue full),
+	// which is not an accepted payload
+	genKind(t, &c, []string{"qblock"})
+	c.Queue = rapid.SampledFrom([]int{1, 2, 4, 8}).Draw(t, "queue6")
+	h := &C06HTTP{Mode: rapid.SampledFrom([]string{"cl", "none"}).Draw(t, "mode")}
+	h.ReqClose = h.Mode == "cl" || rapid.Bool().Draw(t, "reqclose")
+	h.Writes = rapid.SliceOfN(rapid.SampledFrom([]int{1, 14, 100, 2047, 2048, 2049, 5000}), 1, 3).Draw(t, "writes")
+	h.Flush = rapid.Bool().Draw(t, "flush")
+	c.HTTP = h
+	c.Pipe = "http"
+	req := "GET /x HTTP/1.1\r\nHost: h\r\n"
+	if h.ReqClose {
+		req += "Connection: close\r\n"
+	}
+	req += "\r\n"
+	c.Tasks = []E1Task{{Role: "feeder", Ops: []E1Op{{Op: "feed", Text: req}}}}
+	c.Futile = rapid.SampledFrom([]int{0, 0, 1, 2}).Draw(t, "futile")
+	if rapid.Bool().Draw(t, "directed") {
+		c.Prefix = []E1Dir{
+			{Task: 0, Label: "\x00end"},
+			{Task: -2, Label: rapid.SampledFrom([]string{"enqueue.after", "close.won", "close.wait"}).Draw(t, "rl")},
+			{Task: -1, Label: rapid.SampledFrom(e1Windows).Draw(t, "win"), Repeat: rapid.IntRange(0, 1).Draw(t, "rep")},
+		}
+	}
+	c.Schedule = genSchedule(t, 120)
+	return c
+}
+
+func runC06HTTP(c E1Case) (out core.Outcome) {
+	h := c.HTTP
+	total := 0
+	for _, n := range h.Writes {
+		total += n
+	}
+	handler := http.HandlerFunc(func(w http.ResponseWriter, req *http.Request) {
+		if h.Mode == "cl" {
+			w.Header().Set("Content-Length", fmt.Sprint(total))
+		}
+		off := 0
+		for i, n := range h.Writes {
+			_, _ = w.Write(c15RespBody(0, off, n))
+			off += n
+			if h.Flush && i == 0 {
+				w.(http.Flusher).Flush()
+			}
+		}
+	})
+	r := newE1(c, xhttp.ServerCodec(), xhttp.Handler(handler))
+	defer func() { out.Classes = r.cls.List() }()
+	r.execute()
+	if r.incon != "" {
+		out.Inconclusive = r.incon
+		r.sweep(true)
+		return
+	}
+	r.baseClasses()
+	r.cls.Add("http-close-path")
+	defer func() {
+		r.sweep(true)
+		if out.Violation == nil && r.incon != "" {
+			out.Inconclusive = r.incon
+		}
+	}()
+	evs := r.tr.EventsCopy()
+	closeIdx := -1
+	for i := range evs {
+		if evs[i].Kind == "close" && !evs[i].Rejected {
+			closeIdx = i
+			break
+		}
+	}
+	if closeIdx < 0 {
+		out.Violation = core.Viol("C06/http-connection-not-closed", "the request asked to close / the response is close-delimited, but at the terminal state the transport is open (parked: %v)", r.stuck())
+		return
+	}
+	ce := evs[closeIdx]
+	stream, _ := r.tr.Accepted()
+	flushedAtClose := stream[:imin(ce.Start, len(stream))]
+	resp, err := http.ReadResponse(bufio.NewReader(bytes.NewReader(flushedAtClose)), nil)
+	var body []byte
+	if err == nil {
+		body, err = io.ReadAll(resp.Body)
+	}
+	var want []byte
+	off := 0
+	for _, n := range h.Writes {
+		want = append(want, c15RespBody(0, off, n)...)
+		off += n
+	}
+	if err != nil || !bytes.Equal(body, want) {
+		out.Violation = core.Viol("C06/http-response-cut-by-close", "when the transport was closed only %d of %d accepted response bytes had been flushed: the response does not parse completely (err %v, body %d of %d bytes); transport events: %s", len(flushedAtClose), len(stream), err, len(body), len(want), eventsBrief(evs))
+		return
+	}
+	for _, ev := range evs {
+		if ev.Kind == "writev" && ev.Seq < ce.Seq && ev.EndSeq > ce.Seq {
+			out.Violation = core.Viol("C06/closed-during-batch", "the transport was closed while the sender was inside Writev")
+			return
+		}
+	}
+	if r.closeOverlapSender {
+		out.NonTrivial = true
+		r.cls.Add("close-overlaps-sender")
+	}
+	return
+}
+
 func genC06(t *rapid.T) E1Case {
+	if rapid.IntRange(0, 5).Draw(t, "http") == 0 {
+		return genC06HTTP(t)
+	}
 	var c E1Case
 	genKind(t, &c, []string{"qblock", "qblock", "qnonblock"})
 	c.Queue = rapid.SampledFrom([]int{1, 1, 2, 2, 3, 4, 6}).Draw(t, "queue6")
@@ -32,6 +159,7 @@ func genC06(t *rapid.T) E1Case {
 		after = append(after, w)
 	}
 	closeOp := E1Op{Op: "close", Err: rapid.SampledFrom([]string{"nil", "sentinel", "wrapped"}).Draw(t, "cerr")}
+	cancelFirst := rapid.IntRange(0, 3).Draw(t, "cancelfirst") == 0 // the parent context ends first (what Shutdown does)
 	if rapid.IntRange(0, 3).Draw(t, "selfclose") == 0 {
 		// the last writer closes the channel itself, once the others are done
 		last := &c.Tasks[nw-1]
@@ -43,6 +171,9 @@ func genC06(t *rapid.T) E1Case {
 		}
 	} else {
 		c.Tasks = append(c.Tasks, E1Task{Role: "closer", After: after, Ops: []E1Op{closeOp}})
+	}
+	if last := &c.Tasks[len(c.Tasks)-1]; cancelFirst && last.Role == "closer" {
+		last.Ops = append([]E1Op{{Op: "cancelparent"}}, last.Ops...)
 	}
 	c.Futile = rapid.SampledFrom([]int{0, 0, 0, 1, 1, 2}).Draw(t, "futile")
 	if rapid.IntRange(0, 1).Draw(t, "directed") == 0 {
@@ -66,6 +197,9 @@ func genC06(t *rapid.T) E1Case {
 }
 
 func runC06(c E1Case) (out core.Outcome) {
+	if c.HTTP != nil {
+		return runC06HTTP(c)
+	}
 	r := newE1(c)
 	defer func() { out.Classes = r.cls.List() }()
 	r.execute()
@@ -91,6 +225,13 @@ func runC06(c E1Case) (out core.Outcome) {
 	}
 	cl := r.closeCalls[0]
 	r.cls.Add("untilwrite:%v", c.Kind == "qblock")
+	for _, t := range c.Tasks {
+		for _, op := range t.Ops {
+			if op.Op == "cancelparent" {
+				r.cls.Add("parent-cancelled-before-close")
+			}
+		}
+	}
 	// was a sender task alive when Close began?
 	var closeEv *int
 	evs := r.tr.EventsCopy()
